@@ -1,3 +1,6 @@
+// error types of std number parsing (opaque)
+#[verifier::external_type_specification] #[verifier::external_body] pub struct ExParseFloatError(std::num::ParseFloatError);
+#[verifier::external_type_specification] #[verifier::external_body] pub struct ExParseIntError(std::num::ParseIntError);
 // ---- std functions without a vstd specification that idiomatic rewrites reach for (ASSUMED one-line specs) ----
 // Option/Result combinators without a vstd specification (ASSUMED; their std definitions are one-line matches)
 pub assume_specification<T, E, F, O: FnOnce(E) -> Result<T, F>>[Result::<T, E>::or_else](r: Result<T, E>, op: O) -> (res: Result<T, F>)
